@@ -41,9 +41,12 @@ def Config.patterns (c : Config) : Shell → Patterns
   | .unix => ⟨c.unixEvasion, c.unixSuffix, c.unixNoSpaceSuffix⟩
   | .windows => ⟨c.winEvasion, c.winSuffix, c.winNoSpaceSuffix⟩
 
-/-- `regexpChar` -/
+/-- `regexpChar`. The code converts the byte with `string(char)`: a byte ≥ 0x80 is read as the code point of that
+    number and written in UTF-8 (two bytes), so non-ASCII command words are re-encoded byte by byte. -/
 def regexpChar (c : Char) : Bytes :=
-  if c == '.' then b!"\\." else if c == '-' then b!"\\-" else if c == ' ' then b!"\\s+" else [c]
+  if c == '.' then b!"\\." else if c == '-' then b!"\\-" else if c == ' ' then b!"\\s+"
+  else if c.toNat < 0x80 then [c]
+  else [Char.ofNat (0xC0 + c.toNat / 64), Char.ofNat (0x80 + c.toNat % 64)]
 
 /-- `computeSuffix`: (stripped input, suffix pattern) -/
 def computeSuffix (p : Patterns) (input : Bytes) : Bytes × Bytes :=
